@@ -286,7 +286,14 @@ func (r *Reader) read(iop *IOPlan) ([]byte, error) {
 	// Set the result set size based on defined limits
 	var limitBytes int32
 	if iop.Limit.Number != math.MaxInt32 {
-		limitBytes = iop.RecordLen * iop.Limit.Number
+		limitRecords := iop.Limit.Number
+		if iop.RecordType == utilsio.VARIABLE && limitRecords < math.MaxInt32/iop.RecordLen {
+			// The limit counts index records (intervals) here. Every interval holds at least one
+			// record, but the interval that contains a range boundary may be trimmed to nothing
+			// by trimResultsToRange, so one more interval is needed to still find N records.
+			limitRecords++
+		}
+		limitBytes = iop.RecordLen * limitRecords
 	} else {
 		limitBytes = math.MaxInt32
 		if direction == utilsio.LAST {
